@@ -47,7 +47,8 @@ REQUIRED_REACH = {
               "class:same_transforms_other_survey", "class:mode=cube",
               "class:mode=cubeset_tabbook", "class:mode=cubeset_ca0",
               "class:mode=cubeset_numsum", "class:mode=cubeset_filtercols", "class:3d",
-              "class:means_pairwise_defined",
+              "class:means_pairwise_defined", "class:failing_read_repeated",
+              "failing_read_repeated",
               "class:corpus"],
     "thorough": ["history_read", "reread", "construct_shared", "envelope_equivalence",
                  "thread_read", "contract_dimension_dict_prepared",
@@ -234,6 +235,17 @@ def make_case(unit):
         if "numarr" not in template and "mean" not in spec.measures:
             spec.numvar = None
         _array_transforms(g, spec, tr)
+        if gen.stratum(ID, i, "smoother", 3) == 0:
+            # a smoother on the last dimension: a legal one, or one whose evaluation raises
+            # (unknown function, non-integer window) - a read that fails must fail again
+            # when repeated, and leave nothing behind for the next read to find
+            sm = [{"function": "one_sided_moving_avg", "window": 2},
+                  {"function": "one_sided_moving_avg", "window": 3},
+                  {"function": "two_sided_moving_avg", "window": 2},
+                  {"function": "one_sided_moving_avg", "window": 2.0},
+                  {"function": "lowess"}][gen.stratum(ID, i, "smoother2", 5)]
+            tr.setdefault("rows_dimension" if len(facets) == 1 else "columns_dimension",
+                          {})["smoother"] = sm
         if len(facets) >= 2 and gen.stratum(ID, i, "alpha", 2):
             # two thresholds: every secondary-threshold measure is defined and has to keep its
             # own value whichever of its siblings was read first
@@ -279,10 +291,12 @@ def _responses(case):
 
         n = len(case["ans"])
         wts = case.get("weights")
+        mp = case.get("miss_pos") or [1.0] * (1 + len(case["filters"]))
         out = [filtercols._response(case["labels"], case["ans"], [True] * n, False, False,
-                                    wts)[0]]
-        out += [filtercols._response(case["labels"], case["ans"], k, True, True, wts)[0]
-                for k in case["filters"]]
+                                    wts, mp[0])[0]]
+        out += [filtercols._response(case["labels"], case["ans"], k, True, True, wts,
+                                     mp[j_ + 1])[0]
+                for j_, k in enumerate(case["filters"])]
         return json.loads(json.dumps(out))
     out = [json.loads(json.dumps(sim.build_response(sim.spec_from_dict(d))))
            for d in case["specs"]]
@@ -534,6 +548,8 @@ def _check_case(case, res):
                   None if not foreign else {"slots": sorted(foreign), "read": e[1]})
         if e[1].startswith("pairwise_") and "means" in e[1] and pristine[e][0] == "ok":
             res.classes.append("means_pairwise_defined")
+        if (k, e) in seen_reads and pristine[e][0] == "raise":
+            res.classes.append("failing_read_repeated")
         n_reads += 1
         mon = "reread" if (k, e) in seen_reads else "history_read"
         seen_reads.add((k, e))
@@ -542,6 +558,24 @@ def _check_case(case, res):
                   None if ok else {"entry": list(e[:2]), "got": _short(got),
                                    "pristine": _short(pristine[e]), "cube": k,
                                    "history_tail": history[-15:]})
+    # ---- a read that raises is repeated on one object: it has to raise the same way each
+    # ---- time (what a failed evaluation left behind must not pass for its value later)
+    raising = sorted((e for e in pristine if pristine[e][0] == "raise" and kind(e) is None),
+                     key=repr)
+    for e in r.sample(raising, min(8, len(raising))):
+        ob = new_obj()
+        try:
+            parts = _partitions(case, ob) if e[0] >= 0 else None
+        except Exception:
+            continue
+        if parts is not None and e[0] >= len(parts):
+            continue
+        for rep in range(3):
+            got = _outcome(_read_entry(case, ob, parts, e))
+            ok = got == pristine[e]
+            res.check("failing_read_repeated", ok, "reread_raising/%s" % e[1],
+                      None if ok else {"entry": list(e[:2]), "repetition": rep,
+                                       "got": _short(got), "pristine": _short(pristine[e])})
     after = json.dumps([shared_resp, shared_trs], sort_keys=True, default=str)
     # ---- mutation audit ------------------------------------------------------------------------
     mutated = False
